@@ -1,5 +1,6 @@
 import FrappyProofs.Lemmas.Logging
 import FrappyProofs.Lemmas.Poller
+import FrappyProofs.Lemmas.PollerSlow
 import FrappyProofs.Lemmas.Rotate
 import FrappyProofs.Props.C13
 import FrappyProofs.Props.C20
